@@ -655,7 +655,7 @@ func classifyC09(sc *Scenario, h *History, st *Stats) string {
 func init() {
 	register(&Property{
 		ID: "C09", Level: "exploration",
-		Rule:     "server half: raw driver (with crypto/tls for STARTTLS and implicit TLS) against the real server over the full product TLS {plaintext, after STARTTLS, implicit} x AllowInsecureAuth x backend {AuthSession, plain} (systematic), a scripted 1-3 step sasl.Server with drawn challenges (empty, binary) that succeeds or fails at a drawn step, and 1-3 AUTH attempts each behaving {straight, bad base64 at step j, '*' at step j, unknown mechanism, cut}, with or without initial response ('=' for empty), AUTH before the greeting, a NOOP marker after every attempt and STARTTLS between attempts; client half: real Client.Auth with a scripted sasl.Client (nil/empty/binary initial response, per-step responses, error at step j) against the same real server, over plaintext, STARTTLS and implicit TLS. Every case is non-trivial; distinct by (half, TLS mode, flags, attempt outcomes, script).",
+		Rule:     "server half: raw driver (with crypto/tls for STARTTLS and implicit TLS) against the real server over the full product TLS {plaintext, after STARTTLS, implicit} x AllowInsecureAuth x backend {AuthSession, plain} (systematic), a scripted 1-3 step sasl.Server with drawn challenges (empty, binary) that succeeds or fails at a drawn step, and 1-3 AUTH attempts each behaving {straight, bad base64 at step j, '*' at step j, unknown mechanism, cut}, with or without initial response ('=' for empty), AUTH before the greeting, a NOOP marker after every attempt and STARTTLS between attempts; client half: real Client.Auth with a scripted sasl.Client (nil/empty/binary initial response, per-step responses, error at step j) against the same real server, over plaintext, STARTTLS and implicit TLS. Every case is non-trivial; distinct by (half, TLS mode, flags, attempt outcomes, script). Server half also: the client answers a 334 later than ReadTimeout, or with a line over the limit. Client half also: replies re-cut by the network; the exchange broken off by Server.Close or failing/blocked reply writes (Auth reports no success the server's mechanism did not reach).",
 		Gen:      genC09,
 		Check:    checkC09,
 		Classify: classifyC09,
